@@ -38,6 +38,11 @@ def tree_knobs(rng, k):
         hps[int(rng.integers(0, nslab))] = 0  # an empty superslab
     if k % 11 == 7:
         hps = [0] * nslab
+    if k % 7 == 3:
+        # superslab numbers of four digits whose last three digits name a superslab that is also present (same halo count, or not)
+        alias = [1000 + inds[0]] + ([2000 + inds[-1]] if k % 14 == 3 else [])
+        hps = hps + [hps[0] if k % 2 else int(rng.integers(1, 25))] + ([hps[-1]] if k % 14 == 3 else [])
+        inds = inds + alias
     return dict(
         slab_inds=inds,
         halos_per_slab=hps,
@@ -74,6 +79,8 @@ def make_config(rng, truth, k):
     cleaned = bool(k % 2)
     passthrough = cleaned and (k % 9 == 4)
     AB = [dict(A=True), dict(B=True), dict(A=True, B=True), 'true'][int(rng.integers(0, 4))]
+    if AB == dict(A=True, B=True) and k % 2:
+        AB = dict(B=True, A=True)  # the order of the keys in the caller's dict carries no meaning: A is still laid out before B
     if passthrough:
         sub = dict(A=True, B=True) if AB == 'true' else dict(AB)
         which = [['rvint'], ['packedpid'], ['rvint', 'packedpid']][int(rng.integers(0, 3))]
